@@ -6,3 +6,5 @@
 mod compressed;
 
 pub(super) use compressed::*;
+#[cfg(killingspark_zstd_rs_verif)]
+pub(crate) use compressed::verif_exports;
